@@ -447,7 +447,27 @@ func (e *sessEnv) exec(line string) (res string) {
 		if any {
 			a = "1"
 		}
-		return fmt.Sprintf("pos [%s] dirty=%s any=%s", strings.Join(sb, " "), renderVbs(dirty.ToMap()), a)
+		out := fmt.Sprintf("pos [%s] dirty=%s any=%s", strings.Join(sb, " "), renderVbs(dirty.ToMap()), a)
+		// re-read the offset of every context of this session the consumer still holds (shared-pointer mutation shows here)
+		e.co.mu.Lock()
+		for i, ctx := range e.co.ctxs {
+			if e.co.sess[i] != e.co.cur {
+				continue
+			}
+			var vb uint16
+			var off *models.Offset
+			switch ev := ctx.Event.(type) {
+			case models.DcpMutation:
+				vb, off = ev.VbID, ev.Offset
+			case models.DcpDeletion:
+				vb, off = ev.VbID, ev.Offset
+			case models.DcpExpiration:
+				vb, off = ev.VbID, ev.Offset
+			}
+			out += fmt.Sprintf(" ; ctx %d %d %s", i, vb, fmtOff(off))
+		}
+		e.co.mu.Unlock()
+		return out
 	case "scrape":
 		return e.scrape()
 	case "metrics":
